@@ -16,7 +16,7 @@ git apply SEEDED/patch.diff || { echo "RESULT patch does not apply"; exit 2; }
 echo "--- suite with change"
 $GO build ./cmd/... ./pkg/... && $GO test -vet=off -count=1 ./cmd/... ./pkg/... 2>&1 | grep -v "^ok\|no test files" | head; SUITE=${PIPESTATUS[0]}
 echo "suite_exit=$SUITE"
-run_demo() { ( eval "$DEMO_CMD" ) > /tmp/seedeval.$$.log 2>&1; echo $?; }
+run_demo() { ( eval "$DEMO_CMD" ) > /tmp/seedeval.$$.log 2>&1; rc=$?; if grep -q -- "^FAIL\|--- FAIL\|^panic:\|DEMO FAIL" /tmp/seedeval.$$.log; then echo 1; elif grep -q "^ok\|^PASS\|DEMO PASS" /tmp/seedeval.$$.log; then echo 0; else echo "rc$rc"; fi; }
 echo "--- demo with change"; D1=$(run_demo); tail -5 /tmp/seedeval.$$.log
 git apply -R SEEDED/patch.diff
 echo "--- demo without change"; D0=$(run_demo); tail -3 /tmp/seedeval.$$.log
